@@ -66,6 +66,21 @@ CHECKS['C04'] = dict(
          '(file copy taken right after each flush), as the property defines it; real kills are sampled in the thorough tier.',
     ref='§5 C04')
 
+CHECKS['C13'] = dict(
+    technique='Lean 4 theorems over a string-level model of group naming (induction over request histories) + differential correspondence',
+    text=('Theorems (Usid/Properties/C13.lean) over names as character lists: for EVERY parent group (any siblings of any '
+          'kind) and non-empty base, create_indexed_group / create_results_group succeed, the created name is '
+          '<base>_NNN with NNN one more than the highest number used for exactly that prefix (0 if none), it was absent, '
+          'nothing else changes; a sibling name carries an index for at most one base (prefix-related names such as '
+          'A_B_000, A_A_005 are never counted for A); any history of create/delete requests keeps succeeding; '
+          'find_results_groups(d, t) returns a group created for (d2, t2) iff d2 = d and the normalised tool names agree; '
+          'tool/source provenance and recovery of the source dataset. The zero-padded formatter and the digit parser '
+          'are proved inverse. Correspondence: random and (thorough) exhaustive short histories on real HDF5 files over a '
+          'vocabulary closed under prefix/substring relations.'),
+    note=COMMON_NOTE + 'ASCII digits only (Unicode decimal digits accepted by str.isdecimal are outside the generated vocabulary); '
+         'dataset names without "-" for the look-up theorem.',
+    ref='§5 C13')
+
 REASON_PENDING = 'check not built yet in this round (planned: Lean model + theorems + correspondence, see DESIGN.md §5)'
 
 
